@@ -113,8 +113,10 @@ Subst(x) ==
        IF FlawRootDirEmpty /\ x.place = "root" /\ where = "tmp" /\ ~tool THEN [res |-> "text", strs |-> <<>>]
        ELSE [res |-> "text", strs |-> <<Str(IF tool THEN "abs" ELSE where, "dir", PkgChars(x))>>]
   ELSE [res |-> "text", strs |-> [i \in 1..Len(outs) |-> Str(IF tool THEN "abs" ELSE where, outs[i], PkgChars(x) \cup OutChars(x))]]
-\* quote() wraps a string in double quotes iff it contains one of | & ; ( ) < >
-QuotedByCode == {"semi", "amp", "lparen"}
+\* the pinned quote() wrapped a string in double quotes iff it contained one of | & ; ( ) < >  (FlawQuoteFew);
+\* repaired by a fix: commit: a space or a quote character also gets double quotes, a dollar sign single quotes
+FlawQuoteFew == FALSE
+QuotedByCode == IF FlawQuoteFew THEN {"semi", "amp", "lparen"} ELSE {"semi", "amp", "lparen", "space", "dollar", "squote"}
 \* how the shell (bash -u) reads one substituted string
 ShellRead(s) ==
   IF s.chars \cap QuotedByCode # {} THEN "one-word"
